@@ -1,5 +1,6 @@
 //! `nvh` — verification harness for narwhal: translator + correspondence suites.
 //! Usage: nvh <suite> --seed N --cases N --out FILE [--steps N] [--only CASE]
+mod client_mt_suite;
 mod client_suite;
 mod codec_suite;
 mod direct_suite;
@@ -169,6 +170,10 @@ fn main() {
       let rt = tokio::runtime::Builder::new_current_thread().enable_all().start_paused(true).build().unwrap();
       let (seed, cases) = (a.seed, a.cases);
       let t = rt.block_on(async move { client_suite::run_suite(seed, cases).await });
+      std::fs::write(&a.out, t).expect("write transcript");
+    },
+    "client_mt" => {
+      let t = client_mt_suite::run_suite(a.seed, a.cases);
       std::fs::write(&a.out, t).expect("write transcript");
     },
     "client-debug" => {
